@@ -122,6 +122,7 @@ type Exec struct {
 	anyElems  map[string]Value
 	zeroObjs  map[*Object]Value
 	contractErrs []string
+	skippedEnsures map[string]bool
 	maxPaths  int
 	callDepth int
 }
@@ -137,7 +138,7 @@ func NewExec(p *Prog, fn *ssa.Function, c *Contract) *Exec {
 		ordinals: map[string]int{}, instrOrd: map[instrKind]string{},
 		inlined: map[string]bool{}, byContr: map[string]bool{}, intrUsed: map[string]bool{}, unspec: map[string]bool{},
 		specFns: map[string]bool{}, maxPaths: 4000,
-		errDyn: map[string]types.Type{}, freshRegs: map[*Region]bool{}, regionAlias: map[*Region]*Region{}, anyElems: map[string]Value{}, zeroObjs: map[*Object]Value{},
+		errDyn: map[string]types.Type{}, freshRegs: map[*Region]bool{}, regionAlias: map[*Region]*Region{}, skippedEnsures: map[string]bool{}, anyElems: map[string]Value{}, zeroObjs: map[*Object]Value{},
 		allRegs: map[string]*Region{}, boundedLoops: map[string]bool{}, noInvLoops: map[string]bool{},
 	}
 	return e
@@ -753,6 +754,19 @@ func (e *Exec) enterLoop(st *State, fr *Frame, li *LoopInfo, key loopKey) (forks
 }
 
 func (e *Exec) assumeInvariant(st *State, fr *Frame, li *LoopInfo) {
+	// structural fact of range-over-slice loops: the hidden index starts at
+	// -1 and only increments below the length
+	for _, in := range li.Header.Instrs {
+		phi, ok := in.(*ssa.Phi)
+		if !ok {
+			break
+		}
+		if phi.Comment == "rangeindex" {
+			if v, ok := fr.Vals[phi].(VInt); ok {
+				st.assume(And(BVCmp("bvsle", BVConst(v.T.Sort.W, ^uint64(0)), v.T), BVCmp("bvslt", v.T, BVConst(v.T.Sort.W, 1<<maxLenBits))))
+			}
+		}
+	}
 	c := e.loopContract(fr)
 	if c == nil {
 		return
